@@ -210,16 +210,16 @@ theorem primSim_erase : PrimSim₀ encPrimsUX encPrimsU RelErase where
   ix_setRegs := fun _ => Iff.rfl
   ix_addLink := fun _ => Iff.rfl
   numeric := fun dd nb sc rf s =>
-    SimAt.congr_rel (fun _ t _ => encNumericU_eq dd nb sc rf t)
+    SimAt.congr_rel (fun _ t _ => sim_encNumericU_eq dd nb sc rf t)
       (encStepX_encStep_sim dd _ _ (fldNumericX_le nb sc rf) s)
   string := fun dd n s =>
-    SimAt.congr_rel (fun _ t _ => encStringU_eq dd n t)
+    SimAt.congr_rel (fun _ t _ => sim_encStringU_eq dd n t)
       (encStepX_encStep_sim dd _ _ (fun _ _ h => h) s)
   codeflag := fun dd n s =>
-    SimAt.congr_rel (fun _ t _ => encCodeflagU_eq dd n t)
+    SimAt.congr_rel (fun _ t _ => sim_encCodeflagU_eq dd n t)
       (encStepX_encStep_sim dd _ _ (fldCodeflagX_le n) s)
   newRefval := fun e n s =>
-    SimAt.congr_rel (fun _ t _ => encNewRefvalU_eq e n t)
+    SimAt.congr_rel (fun _ t _ => sim_encNewRefvalU_eq e n t)
       (encStepX_encStep_sim _ _ _ (fun _ _ h => h) s)
   constant := fun dd c s =>
     SimAt.congr_rel (fun _ t _ => encConstantU_eq dd c t)
